@@ -132,7 +132,7 @@ func c11Atom(r *rng) c11Pred {
 	case 13:
 		return c11Pred{"key != " + c11Q(l), func(k, v string) bool { return k != l }}
 	case 14:
-		return c11Pred{"!(key ^= " + c11Q(l) + ")", func(k, v string) bool { return !strings.HasPrefix(k, l) }}
+		return c11Pred{"value != 'x'", func(k, v string) bool { return v != "x" }}
 	default:
 		return c11Pred{fmt.Sprintf("key in (%s, %s, 'd')", c11Q(l), c11Q(m)), func(k, v string) bool { return k == l || k == m || k == "d" }}
 	}
@@ -157,14 +157,20 @@ func c11Tree(r *rng, depth int) c11Pred {
 
 // ---------------------------------------------------------------- states
 
-var c11KeyPool = []string{"a", "ab", "abc", "b", "ba", "c", "ca", "d", "e", "zz", "zzz", "aa", "bb", "f"}
+var c11KeyPool = []string{"a", "ab", "b", "ba", "c", "zz", "abc", "ca", "d", "e", "zzz", "aa", "bb", "f"}
 
+// c11Store: n keys of the pool; the keys the predicates name (the first six of the pool) are
+// taken first, so that small states still hold pairs the predicates select
 func c11Store(r *rng, n int, withEmptyKey bool) [][2]string {
 	keys := append([]string{}, c11KeyPool...)
-	for i := len(keys) - 1; i > 0; i-- {
-		j := r.intn(i + 1)
-		keys[i], keys[j] = keys[j], keys[i]
+	shuffle := func(xs []string) {
+		for i := len(xs) - 1; i > 0; i-- {
+			j := r.intn(i + 1)
+			xs[i], xs[j] = xs[j], xs[i]
+		}
 	}
+	shuffle(keys[:6])
+	shuffle(keys[6:])
 	if n > len(keys) {
 		n = len(keys)
 	}
@@ -402,6 +408,9 @@ func c11DeleteCase(e *emitter, p c11Pred, lim c11Limit, kvs [][2]string, batch b
 	if berr != nil {
 		e.m.OutOfModel++
 		e.count("rejected")
+		if e.m.Dist["rejected"] <= 5 {
+			e.m.Notes = append(e.m.Notes, "rejected (excluded): "+q+": "+berr.Error())
+		}
 		return
 	}
 	rp.Plan = strings.Join(plan.Explain(), " <- ")
@@ -702,8 +711,16 @@ func runC11(c *runCtx) error {
 	e.m.Rule = "a delete case = (delete where P [limit s, n], prior state, batch size, polling mode) with the built plan, the per-pair verdicts of FilterExec.Filter, the storage call log, the final state and the result of select * where P [limit s, n] on a clone of the prior state; a history case = a sequence of <= 12 put / remove / delete / select statements on one storage with the state after each; non-trivial = non-empty prior state (delete) / at least two statements (history); distinct = distinct Gallina case terms"
 	deep := c.thorough() || c.search
 	Bs := []int{1, 2, 3, 32}
-	limitsFor := func(B int) []c11Limit {
-		return []c11Limit{{}, {true, 0, 1}, {true, 1, 2}, {true, 0, 0}, {true, B, B + 1}, {true, 2 * B, 1}, {true, 2, 100}, {true, 1, B}}
+	// limits relative to the batch size and to the state size (so that most slices are non-empty)
+	limitsFor := func(B, n int) []c11Limit {
+		ls := []c11Limit{{}, {true, 0, 1}, {true, 1, 2}, {true, 0, 0}, {true, 0, n}, {true, n / 3, n}, {true, 1, B}}
+		if n > B {
+			ls = append(ls, c11Limit{true, B, B + 1})
+		}
+		if n > 2*B {
+			ls = append(ls, c11Limit{true, 2 * B, 1})
+		}
+		return ls
 	}
 	sizesFor := func(B int) []int {
 		if deep {
@@ -713,17 +730,17 @@ func runC11(c *runCtx) error {
 			}
 			return out
 		}
-		return []int{0, 1, min(B+1, 6), min(2*B+1, 9), min(3*B+2, len(c11KeyPool))}
+		return []int{1, min(B+1, 6), min(2*B+1, 9), min(3*B+2, len(c11KeyPool)), len(c11KeyPool)}
 	}
 	// part A: curated predicates x limits x B x states
 	rr := 0
 	for _, B := range Bs {
 		for pi, p := range c11Curated {
-			for li, lim := range limitsFor(B) {
-				for _, n := range sizesFor(B) {
+			for _, n := range sizesFor(B) {
+				for li, lim := range limitsFor(B, n) {
 					rr++
-					if !deep && (rr+pi+li)%4 != int(c.seed%4) {
-						continue // quick tier: a rotating quarter of the grid
+					if !deep && (rr+pi+li)%2 != int(c.seed%2) {
+						continue // quick tier: a rotating half of the grid
 					}
 					kvs := c11Store(r, n, rr%7 == 0)
 					batch := rr%2 == 0
@@ -744,9 +761,9 @@ func runC11(c *runCtx) error {
 		c11DeleteCase(e, p, c11Limit{}, kvs, true, B, "curated-full")
 	}
 	// part B: random predicate trees
-	nRandom := 400
+	nRandom := 1200
 	if deep {
-		nRandom = 6000
+		nRandom = 25000
 	}
 	for i := 0; i < nRandom; i++ {
 		B := pick(r, Bs)
@@ -781,14 +798,14 @@ func runC11(c *runCtx) error {
 		}
 	}
 	// part D: statement sequences against a model map
-	nHist := 60
+	nHist := 150
 	if deep {
-		nHist = 800
+		nHist = 3000
 	}
 	for i := 0; i < nHist; i++ {
 		c11History(e, r, 2+r.intn(11))
 	}
 	e.m.Exhaustive = deep
-	e.m.Notes = append(e.m.Notes, "curated predicates x limits x batch sizes x state sizes 0..3B+1 are enumerated in the thorough tier (a rotating quarter in the quick tier); random predicate trees, big states and statement sequences are seeded")
+	e.m.Notes = append(e.m.Notes, "curated predicates x limits x batch sizes x state sizes 0..3B+1 are enumerated in the thorough tier (a rotating half in the quick tier); random predicate trees, big states and statement sequences are seeded")
 	return e.flush()
 }
